@@ -183,6 +183,8 @@ def prelude() -> List[Tuple[str, str, Any]]:
                       "specification asks for it (trigger marker unfold!sfold, an uninterpreted predicate without axioms)",
         FA([F, M, n], Imp(n >= 0, sfold_f(F, M, n + 1) == sumset_f(padset_f(sfold_f(F, M, n), sel(M, n)), sel(F, n))),
            patterns=[sfold_hint(F, M, n)]))
+    add("sfold-one", "Lean Layout.sfold_one: the first field of a structure is never padded, SFold [f] = L f",
+        FA([F, M], Imp(sel(M, 0) >= 1, sfold_f(F, M, 1) == sel(F, 0)), patterns=[sfold_f(F, M, 1)]))
     add("minmap", "definitional", FA([F, i], sel(minmap(F), i) == smin(sel(F, i)), patterns=[sel(minmap(F), i)]))
     add("maxmap", "definitional", FA([F, i], sel(maxmap(F), i) == smax(sel(F, i)), patterns=[sel(maxmap(F), i)]))
 
